@@ -20,7 +20,7 @@ RULE = ('Sub-check "history": sign, compute every digest, apply 1..4 documented 
         'p2pkh/p2sh/p2wpkh/p2wsh/p2tr/nulldata/raw scripts given by address or script; all 11 networks. '
         'Sub-check "parse": the same plans serialised and signed by the reference, parsed by the library. '
         'Non-trivial = >=2 inputs, or a segwit or multisig input, or a boundary value (value >= 2^32, >= 252 '
-        'outputs, non-final sequence, odd version, uncompressed key); distinct by hash of the plan. [history: verify() is also asked BEFORE anything is signed again and compared with the consensus interpreter on the current serialisation] [api: digests for hash types 02/03/81/82/83 of every input against the reference]')
+        'outputs, non-final sequence, odd version, uncompressed key); distinct by hash of the plan. [history: verify() is also asked BEFORE anything is signed again and compared with the consensus interpreter on the current serialisation] [api: digests for hash types 02/03/81/82/83 of every input against the reference] [merge: two signed plans merged (merge_transaction / +), every input of the result against reference digest and interpreter]')
 ASSUMPTIONS = ['ref/sighash.py + ref/interp.py implement consensus (BIP143 example signature, round-trip spends in '
                'ref/selftest.py)', 'only SIGHASH_ALL: Transaction.sign refuses every other hash type',
                'bare multisig inputs cannot be expressed through Input and are not generated']
